@@ -213,7 +213,17 @@ pub fn cases(tier: &str, seed: u64) -> Vec<Case> {
                 let rr = ResourceRecord::new(g.name(), CLASS::IN, 5, rd);
                 // two times in three the message also asks a question: a fresh name, or the first owner's name in another
                 // spelling of its letters (names are carried as they were sent; only comparisons ignore case)
-                let qtxt = match rep % 3 {
+                let qtxt = match if rep % 7 == 5 { 3 } else { rep % 3 } {
+                    // two questions, the second a name under the first (a browse query: the service type and an instance of
+                    // it): the encoder may end it in a pointer, and the second question's type and class follow that
+                    // pointer's two octets, not the expanded name
+                    3 => {
+                        let base = g.name();
+                        let mut labels: Vec<Vec<u8>> = vec![b"inst".to_vec()];
+                        labels.extend(base.get_labels().iter().map(|l| l.as_bytes().to_vec()));
+                        let wire_len: usize = labels.iter().map(|l| l.len() + 1).sum::<usize>() + 1;
+                        if wire_len > 255 { "0".to_string() } else { format!("2 {} 12 1 0 {} 33 1 1", text::name(&base), text::name(&crate::gen::mk_name(&labels))) }
+                    }
                     0 => "0".to_string(),
                     1 => format!("1 {} 255 1 {}", text::name(&g.name()), rep % 2),
                     _ => {
